@@ -1,6 +1,7 @@
 package main
 
 import (
+	"os"
 	"fmt"
 	"go/ast"
 	"go/token"
@@ -108,6 +109,20 @@ func (x *Exec) Run() (err error) {
 		// vacuity probe: requires satisfiable
 		o := x.oblige("vacuity/requires", "vacuity", tTrue, tFalse, "requires must be satisfiable", fn.Pos())
 		o.MustFail = true
+		// ghost variables
+		for _, g := range x.contract.Ghosts {
+			x.ncell++
+			c := &Cell{Name: "ghost_" + g.Name, ID: x.ncell}
+			v := Leaf{T: x.vc.define("ghost_"+g.Name, x.ev.specOf(x.evalIn(g.Init, env)))}
+			x.cur.mem[c] = v
+			x.ghostCells[g.Name] = c
+			x.entry[g.Name] = v
+		}
+		for _, gs := range x.contract.GhostSets {
+			if _, ok := x.ghostCells[gs.Name]; !ok {
+				panic(unsupported("ghost assignment to undeclared variable " + gs.Name))
+			}
+		}
 	}
 
 	for _, b := range rpo {
@@ -127,6 +142,11 @@ func (x *Exec) Run() (err error) {
 		for _, ap := range x.contract.Applies {
 			if !x.appliesDone[ap] {
 				panic(unsupported("apply anchor for lemma " + ap.Lemma + " not found (contract-anchor-lost)"))
+			}
+		}
+		for _, g := range x.contract.GhostSets {
+			if !x.ghostDone[g] {
+				panic(unsupported("ghost anchor \"" + g.Text + "\" not found (contract-anchor-lost)"))
 			}
 		}
 		for _, a := range x.contract.Asserts {
@@ -360,7 +380,15 @@ func (x *Exec) runBlock(b *ssa.BasicBlock) {
 			x.cur = states[0].clone()
 		} else {
 			x.cur = &State{mem: map[*Cell]Val{}}
-			for c, v0 := range states[0].mem {
+			// deterministic order (cell creation order): the text of the verification conditions, and with
+			// it solver behaviour and the result cache, must not depend on map iteration
+			var mcells []*Cell
+			for c := range states[0].mem {
+				mcells = append(mcells, c)
+			}
+			sort.Slice(mcells, func(i, j int) bool { return mcells[i].ID < mcells[j].ID })
+			for _, c := range mcells {
+				v0 := states[0].mem[c]
 				vals := []Val{v0}
 				ok := true
 				for _, st := range states[1:] {
@@ -389,17 +417,19 @@ func (x *Exec) runBlock(b *ssa.BasicBlock) {
 		x.curInstr = ins
 		switch ins.(type) {
 		case *ssa.Jump, *ssa.If, *ssa.Return:
+			x.maybeGhost(lastPos, "after")
 			x.maybeAssertAfter(lastPos)
 		}
+		x.maybeGhost(ins.Pos(), "before")
 		if ins.Pos().IsValid() {
 			lastPos = ins.Pos()
 		}
+		x.maybeApply(ins)
+		x.maybeAssert(ins)
 		if x.maybeLimit(ins) {
 			x.curInstr = nil
 			return // the rest of this path is outside the contract's scope
 		}
-		x.maybeApply(ins)
-		x.maybeAssert(ins)
 		x.maybeCut(ins)
 		x.step(ins, preds, conds)
 	}
@@ -604,6 +634,28 @@ func (x *Exec) maybeAssert(ins ssa.Instruction) {
 	}
 }
 
+// maybeGhost performs the ghost assignments anchored at this point (in the order of the contract).
+func (x *Exec) maybeGhost(pos token.Pos, where string) {
+	if x.contract == nil || len(x.contract.GhostSets) == 0 || !pos.IsValid() {
+		return
+	}
+	text := x.lineText(pos)
+	for _, g := range x.contract.GhostSets {
+		if g.Where != where || x.ghostDone[g] || !strings.Contains(text, g.Text) {
+			continue
+		}
+		if x.cutLine(&CutSpec{Text: g.Text, Ord: g.Ord}) != x.w.fset.Position(pos).Line {
+			continue
+		}
+		x.ghostDone[g] = true
+		if os.Getenv("GOVC_DEBUG") != "" {
+			fmt.Fprintf(os.Stderr, "ghost %s %s %q: %s = %s (block %d)\n", x.name, g.Where, g.Text, g.Name, g.Clause.Text, x.curBlock.Index)
+		}
+		v := x.ev.specOf(x.evalIn(g.Clause, x.envAt(pos)))
+		x.cur.mem[x.ghostCells[g.Name]] = Leaf{T: x.vc.define("ghost_"+g.Name, v)}
+	}
+}
+
 // maybeAssertAfter implements "assert after <text>#n: e": e is proved at the end of the basic
 // block whose last statement is on the n-th source line containing the text (the end of a branch
 // body), before control leaves the block.
@@ -690,6 +742,19 @@ func (x *Exec) enterLoop(li *loopInfo) {
 					}
 					if _, ok := a.Type().Underlying().(*types.Slice); ok {
 						li.mod[nil] = true // slice backing stores: havoc all
+					}
+				}
+			}
+		}
+	}
+	// ghost variables assigned at an anchor inside the loop
+	if x.contract != nil {
+		for _, gs := range x.contract.GhostSets {
+			line := x.cutLine(&CutSpec{Text: gs.Text, Ord: gs.Ord})
+			for blk := range li.body {
+				for _, ins := range blk.Instrs {
+					if ins.Pos().IsValid() && x.w.fset.Position(ins.Pos()).Line == line {
+						li.mod[x.ghostCells[gs.Name]] = true
 					}
 				}
 			}
